@@ -48,6 +48,169 @@ def fold_literal_switches(raw):
     return n
 
 
+def scalarize_plain_aggregates(raw, types):
+    """A tuple or a struct of plain scalars (bool / integers, e.g. a private `ShrinkPlan { drop_leftovers: bool, min_size: usize }`) that is
+    built once in this body, only moved around as a whole and read field by field, is its fields: every read `p.i` becomes a read of the
+    operand stored at i.  (After a decide/apply pair of helpers is inlined, the flag the first computed is then the flag the second tests.)"""
+    if raw.get("_sroa"):
+        return 0
+    raw["_sroa"] = True
+
+    def plain(ti, depth=0):
+        t = types[ti]
+        k = t.get("k")
+        if k in ("bool", "int", "uint", "char") or t.get("s") in ("bool", "usize", "isize", "u8", "u16", "u32", "u64", "u128", "i8", "i16", "i32", "i64", "i128", "char", "()"):
+            return True
+        return False
+    nargs = raw["arg_count"]
+    defs, uses_other = {}, set()
+    for blk in raw["blocks"]:
+        for st in blk["stmts"]:
+            if st["k"] == "assign" and not st["place"]["proj"]:
+                defs.setdefault(st["place"]["local"], []).append(st)
+            elif st["k"] in ("assign", "set_discr"):
+                uses_other.add(st["place"]["local"])       # written through a projection
+        t = blk["term"]
+        if t["k"] == "call" and t.get("dest") is not None:
+            if t["dest"]["proj"]:
+                uses_other.add(t["dest"]["local"])
+            else:
+                defs.setdefault(t["dest"]["local"], []).append(None)
+    # candidate aggregates
+    cands = {}
+    for l, ds in defs.items():
+        if l == 0 or l <= nargs or len(ds) != 1 or ds[0] is None:
+            continue
+        rv = ds[0]["rv"]
+        if rv["k"] != "aggregate" or rv.get("agg") not in ("tuple", "adt") or not rv.get("ops"):
+            continue
+        if rv.get("agg") == "adt" and (rv.get("adt") in ("core::option::Option", "core::result::Result") or rv.get("variant") is None):
+            continue
+        ok = True
+        for o in rv["ops"]:
+            if o["k"] == "const":
+                continue
+            if o["k"] not in ("copy", "move") or o["place"]["proj"]:
+                ok = False
+                break
+            if not plain(o["place"]["ty"]):
+                ok = False
+                break
+            od = defs.get(o["place"]["local"], [])
+            if o["place"]["local"] <= nargs or len(od) != 1:
+                ok = False
+                break
+        if ok:
+            cands[l] = rv
+    if not cands:
+        return 0
+    # alias classes: whole-local moves of a candidate
+    alias = {l: l for l in cands}
+    changed = True
+    while changed:
+        changed = False
+        for l, ds in defs.items():
+            if l in alias or l == 0 or l <= nargs or len(ds) != 1 or ds[0] is None:
+                continue
+            rv = ds[0]["rv"]
+            if rv["k"] == "use" and rv["op"]["k"] in ("copy", "move") and not rv["op"]["place"]["proj"] and rv["op"]["place"]["local"] in alias:
+                alias[l] = alias[rv["op"]["place"]["local"]]
+                changed = True
+    # every other use of a member disqualifies its class
+    bad = set()
+
+    def see_op(o, field_read_ok):
+        if o.get("k") in ("copy", "move"):
+            l = o["place"]["local"]
+            if l in alias:
+                pr = o["place"]["proj"]
+                if pr and pr[0]["k"] == "field" and field_read_ok:
+                    return
+                if not pr and field_read_ok == "whole":
+                    return
+                bad.add(alias[l])
+
+    def see_place(pl):
+        if pl["local"] in alias:
+            bad.add(alias[pl["local"]])
+    for blk in raw["blocks"]:
+        for st in blk["stmts"]:
+            if st["k"] == "assign":
+                rv = st["rv"]
+                k = rv["k"]
+                if st["place"]["proj"] and st["place"]["local"] in alias:
+                    bad.add(alias[st["place"]["local"]])
+                if k == "use":
+                    whole_move = not st["place"]["proj"] and st["place"]["local"] in alias
+                    see_op(rv["op"], "whole" if whole_move else True)
+                    if not whole_move and rv["op"].get("k") in ("copy", "move") and not rv["op"]["place"]["proj"] and rv["op"]["place"]["local"] in alias:
+                        bad.add(alias[rv["op"]["place"]["local"]])
+                elif k in ("ref", "rawptr", "discr", "copy_for_deref", "len"):
+                    see_place(rv["place"])
+                elif k in ("cast", "repeat", "wrap_binder"):
+                    see_op(rv["op"], False)
+                elif k == "binop":
+                    see_op(rv["a"], True); see_op(rv["b"], True)
+                elif k == "unop":
+                    see_op(rv["a"], True)
+                elif k == "aggregate":
+                    for o in rv["ops"]:
+                        see_op(o, True)
+            elif st["k"] == "set_discr":
+                see_place(st["place"])
+        t = blk["term"]
+        if t["k"] == "call":
+            for a in t.get("args", []):
+                see_op(a, True)
+            see_op(t["func"], False) if isinstance(t.get("func"), dict) else None
+        elif t["k"] == "switch":
+            see_op(t["discr"], True)
+        elif t["k"] == "drop":
+            see_place(t["place"])
+        elif t["k"] == "assert":
+            see_op(t["cond"], True)
+    for l in uses_other:
+        if l in alias:
+            bad.add(alias[l])
+    n = 0
+
+    def rewrite(o):
+        nonlocal n
+        if o.get("k") in ("copy", "move"):
+            l = o["place"]["local"]
+            pr = o["place"]["proj"]
+            if l in alias and alias[l] not in bad and pr and pr[0]["k"] == "field":
+                src = cands[alias[l]]["ops"][pr[0]["i"]] if pr[0]["i"] < len(cands[alias[l]]["ops"]) else None
+                if src is None:
+                    return
+                if src["k"] == "const":
+                    if len(pr) == 1:
+                        o.clear(); o.update(src)
+                        n += 1
+                    return
+                o["k"] = "copy"
+                o["place"] = {"local": src["place"]["local"], "proj": list(pr[1:]), "ty": o["place"]["ty"]}
+                n += 1
+    for blk in raw["blocks"]:
+        for st in blk["stmts"]:
+            if st["k"] == "assign":
+                rv = st["rv"]
+                for key in ("op", "a", "b"):
+                    if isinstance(rv.get(key), dict):
+                        rewrite(rv[key])
+                for o in rv.get("ops", []):
+                    rewrite(o)
+        t = blk["term"]
+        if t["k"] == "call":
+            for a in t.get("args", []):
+                rewrite(a)
+        elif t["k"] == "switch":
+            rewrite(t["discr"])
+        elif t["k"] == "assert":
+            rewrite(t["cond"])
+    return n
+
+
 def thread_flags(raw, types):
     if raw.get("_threaded"):
         return 0
@@ -356,6 +519,13 @@ def lower_identity_calls(raw, types):
         elif t.get("callee") == "core::iter::IntoIterator::into_iter" and res.get("path") == "<I as core::iter::IntoIterator>::into_iter" \
                 and t.get("targs") and types[t["targs"][0]].get("k") == "ref" and types[t["targs"][0]].get("mut"):
             ident = True
+        if (t.get("resolved") or {}).get("path") == "<core::option::Option<T> as core::ops::FromResidual<core::option::Option<core::convert::Infallible>>>::from_residual":
+            # the `?` operator on an Option: the residual of an Option is None, and so is what is made of it
+            blk["stmts"].append({"k": "assign", "place": t["dest"], "rv": {"k": "aggregate", "agg": "adt", "adt": "core::option::Option", "variant": "None",
+                                                                             "vidx": 0, "fields": [], "ops": []}, "span": t["span"], "lowered_from": t.get("callee")})
+            blk["term"] = {"k": "goto", "target": t["target"], "span": t["span"], "rewritten_from": t.get("callee")}
+            n += 1
+            continue
         if not ident or t["args"][0]["k"] not in ("move", "copy"):
             continue
         blk["stmts"].append({"k": "assign", "place": t["dest"], "rv": {"k": "use", "op": t["args"][0]}, "span": t["span"], "lowered_from": t.get("callee")})
